@@ -135,7 +135,11 @@ impl FieldElement for BaseElement {
     fn double(self) -> Self {
         let ret = (self.0 as u128) << 1;
         let (result, over) = (ret as u64, (ret >> 64) as u64);
-        Self(result.wrapping_sub(M * over))
+        let result = result.wrapping_sub(M * over);
+        // bring the result into the canonical range [0, M): internal values must be canonical
+        // because equality compares them directly
+        let (reduced, under) = result.overflowing_sub(M);
+        Self(if under { result } else { reduced })
     }
 
     #[inline]
